@@ -15,9 +15,13 @@
 (*        the engine reported that it could NOT hand the request to exchange x's *)
 (*        link: w = no_link (none found) | terminated | unhealthy (its manager    *)
 (*        has gone); foreign as in Quiescent                                     *)
-(*   {"a":"Process","c":cid,"kind":k,"x":exchange}  the engine processed an       *)
-(*        account event about cid stamped with exchange x, k in open_ok |        *)
-(*        open_filled | open_failed | cancel_ok | cancel_err                     *)
+(*   {"a":"Process","c":cid,"kind":k,"why":w,"x":exchange}  the engine processed   *)
+(*        an account event about cid stamped with exchange x, k in open_ok |     *)
+(*        open_filled | open_failed | cancel_ok | cancel_err; w =                *)
+(*        instrument_invalid when the exchange rejected the open because it does *)
+(*        not know the instrument NAME it was addressed with (one process builds *)
+(*        two systems over universes of the same shape but other market names;   *)
+(*        each is a run of its own with its own Reset line)                      *)
 (*   {"a":"Item","x":exchange}     the engine processed an account item of        *)
 (*        exchange x (the first one is the client's account snapshot)             *)
 (*   {"a":"MktItem","x":exchange}  the engine processed a market item of x        *)
@@ -129,7 +133,11 @@ TProcess == /\ Log[l].a = "Process" /\ Keep
                           /\ UNCHANGED <<home, feed, sends, link>>
                           \* the answer must come back in the name of the exchange the request went to
                           \* (the event's own stamp and the exchange inside the order key it carries: both)
-                          /\ Note(IF x = r.x /\ Log[l].key_x = r.x THEN {} ELSE {"wrong_exchange"})
+                          /\ Note((IF x = r.x /\ Log[l].key_x = r.x THEN {} ELSE {"wrong_exchange"})
+                                  \* the drivers only ask for instruments of the run's own universe: an exchange that
+                                  \* answers "no such instrument" was addressed by a name that is not this universe's
+                                  \* name of the instrument (index -> exchange name, C04)
+                                  \cup (IF k = "open_failed" /\ Log[l].why = "instrument_invalid" THEN {"wrong_instrument_name"} ELSE {}))
 Up(m, x) == x \in DOMAIN m /\ m[x]
 ConnOf(r) == [x \in EXCH |-> IF Up(r.conn, x) THEN "up" ELSE "down"]
 MktOf(r) == [x \in EXCH |-> IF Up(r.market, x) THEN "up" ELSE "down"]
